@@ -99,6 +99,9 @@ func FromV1(a *dynamodb.AttributeValue) val.V {
 	case a.BOOL != nil:
 		return val.Bool(*a.BOOL)
 	case a.NULL != nil:
+		if !*a.NULL {
+			return val.V{T: "?NULL(false)"} // not a value DynamoDB knows
+		}
 		return val.Null()
 	case a.B != nil:
 		return val.V{T: "B", B: append([]byte{}, a.B...)}
